@@ -172,6 +172,10 @@ func TestC07Rounds(t *testing.T) {
 					for _, j := range r.Perm(len(cw.pool))[:pick(r, 0, 1, 2, 3, 4)] {
 						qs = append(qs, j)
 					}
+					// repeated entries collapse in the stored list (it is keyed by query id)
+					for len(qs) > 0 && r.Intn(3) == 0 {
+						qs = append(qs, qs[r.Intn(len(qs))])
+					}
 					var cl [][]byte
 					items := make([]string, len(qs))
 					for k, j := range qs {
